@@ -292,7 +292,7 @@ def run(ctx):
     res = Result()
     tasks = []
     for name, text in BASE:
-        for n in ((1,) if ctx.quick() else (1, 2)):
+        for n in ((1, 2) if ctx.quick() else (1, 2, 3)):
             tasks.append(("layout", name, text, n))
         tasks.append(("rename", name, text, None))
         for sfx in (SUFFIXES[:6] if ctx.quick() else SUFFIXES):
@@ -321,7 +321,7 @@ def run(ctx):
         res.violations.append({"what": f"{fn} calls {callee}: the result can depend on hash-map order / ambient state", "replay": rp})
     res.samples.append({"template": "layout:annotation", "outcome": "graph, symbols and diagnostics equal the canonical layout's for every trivia kind / character in every gap"})
     res.functions_encoded += ["oq3_parser::{LexedStr::to_input, parser::*, LexedStr::intersperse_trivia}", "oq3_syntax::ast accessors reached (token_ext, node_ext: text_of_first_token, annotation / pragma text)", "oq3_semantics::syntax_to_semantics::* , context::*, symbols::*"]
-    res.bounds.update({"base_programs": len(BASE), "trivia_per_gap": "1 (quick) / 1-2 tokens, kind and one ASCII character symbolic", "renaming": "one-character ASCII letter names, injective, not U", "suffixes": len(SUFFIXES)})
+    res.bounds.update({"base_programs": len(BASE), "trivia_per_gap": "1-2 (quick) / 1-3 tokens, kind and one ASCII character symbolic", "renaming": "one-character ASCII letter names, injective, not U", "suffixes": len(SUFFIXES)})
     res.stubs += ["rowan tree model", "hashbrown map model (iteration refused)", "string models"]
     res.assumptions += ["the lexer maps each layout to the token table used here (C14 / C15 cover the lexer side)"]
     res.outside_claim += ["multi-character identifiers, non-ASCII trivia", "split points inside nested blocks"]
